@@ -8,7 +8,9 @@ implementation's coefficients.  The statement of the property is evaluated direc
 import os
 
 import gridlib as gl
+import rltie
 import vlib
+import c07strategies
 
 LEVEL = "proof"
 PID = "C07"
@@ -22,6 +24,8 @@ TRUSTED = [
     "RuleLocal hierarchy functions, loadNeededValues/mergeRefinement/clearRefinement bookkeeping of the 5 families, "
     "classic candidate selection of GridLocalPolynomial; the flagging arithmetic (|s|*c/norm > tol) is recomputed in binary64 by the harness; "
     "wavelet selection and the non-classic strategies are only checked through the state-machine invariants",
+    "translator translator/rulelocal.py (clang JSON AST of tsgRuleLocalPolynomial.hpp / tsgMathUtils.hpp -> coq/gen/RuleLocalGen.v; rules R1-R6 in the generated header; stops on unknown shapes): "
+    "the integer hierarchy functions are regenerated on every run and proved equal to Model/RuleLocal.v for all non-negative points (Props/Properties_RuleLocalGen.v)",
 ]
 
 
@@ -289,6 +293,7 @@ def check_case(res, cid, spec, steps, script, gs_lines, sel_lines, stats):
 def run(res, tier, seed, replay_script=None):
     props = vlib.coq_props(PID)
     vlib.proof_coverage(res, PID, props, "cd coq && make Props/Properties_C07.vo && coqc -Q . TV Props/Properties_C07.v", TRUSTED)
+    rl_break = rltie.run(res, PID)      # the RuleLocal integer functions re-translated from the header and re-proved equal to the model
     ok_ext, elog = vlib.coq_make(["Extract/ExtractCore.vo"])
     proof_broken = (not props["ok"]) or bool(res.coverage["forbidden_tokens"])
     runner = vlib.ocaml_runner("core") if ok_ext else None
@@ -439,6 +444,10 @@ def run(res, tier, seed, replay_script=None):
             res.violation("correspondence", "model and implementation disagree on %d cases, e.g. %s" % (len(mism), mism[0][:300]),
                           {"kind": "correspondence-break", "correspondence": "IndexSets/GridState/RuleLocal/Selection models vs implementation",
                            "examples": mism[:10]}, no_input=True)
+    # all five refinement criteria of Local Polynomial grids: model of getRefinementCanidates from the white-box update map (props/c07strategies.py)
+    if not replay_script:
+        c07strategies.run(res, tier, seed)
+    rltie.report(res, rl_break)
     if proof_broken and not res.violations:
         res.violation("proof", "proof obligations of Properties_C07.v no longer check (%d/%d) %s" %
                       (props["discharged"], props["obligations"], res.coverage["forbidden_tokens"][:2]),
@@ -469,5 +478,8 @@ def replay(path):
     import json
     rp = json.load(open(path))
     res = vlib.Result(PID, "quick", rp.get("seed", 1), LEVEL)
+    if rp.get("driver") == "seldrv":
+        c07strategies.run(res, "quick", rp.get("seed", 1), replay_script=rp.get("script"))
+        return res.finish()
     run(res, "quick", rp.get("seed", 1), replay_script=rp.get("script"))
     return res.finish()
